@@ -48,6 +48,13 @@ M = [
     ("C12", "one-pass-less", "black_it/samplers/base.py", "for n in range(self.max_deduplication_passes):", "for n in range(max(self.max_deduplication_passes - 1, min(self.max_deduplication_passes, 1))):"),
     ("C12", "break-le-1", "black_it/samplers/base.py", "            if num_duplicates == 0:", "            if num_duplicates == 0 or (num_duplicates == 1 and n >= 2):"),
     ("C12", "redraw-all", "black_it/samplers/base.py", "            new_samples = self.sample_batch(\n                num_duplicates,", "            new_samples = self.sample_batch(\n                num_duplicates if n < 1 else len(samples),"),
+    ("C13", "halton-done-mask", "black_it/samplers/halton.py", "            remainders[done] = 0.0\n", "            remainders[done] = 0.0\n            remainders[(denoms > 60000) & (bases == 3)] = 0.0\n"),
+    ("C13", "halton-start-off", "black_it/samplers/halton.py", "    for index in range(n_start + 1, sample_size + n_start + 1):", "    for index in range(n_start + 1 + (1 if n_start == 4097 else 0), sample_size + n_start + 1 + (1 if n_start == 4097 else 0)):"),
+    ("C13", "halton-cursor-gap", "black_it/samplers/halton.py", "        self._sequence_index += nb_samples", "        self._sequence_index += nb_samples + (1 if nb_samples == 2 else 0)"),
+    ("C13", "halton-no-reset", "black_it/samplers/halton.py", "        super()._set_random_state(random_state)\n        self._reset_sequence_index()", "        super()._set_random_state(random_state)"),
+    ("C13", "rseq-cursor", "black_it/samplers/r_sequence.py", "        self._sequence_index = end_index", "        self._sequence_index = end_index - 1"),
+    ("C13", "rseq-alpha", "black_it/samplers/r_sequence.py", "np.power(1 / phi, np.arange(1, dims + 1))", "np.power(1 / phi, np.arange(0, dims))"),
+    ("C13", "rseq-maxindex", "black_it/samplers/r_sequence.py", "            _MIN_SEQUENCE_START_INDEX,\n            _MAX_SEQUENCE_START_INDEX,\n        )\n        self._sequence_start", "            0,\n            _MAX_SEQUENCE_START_INDEX,\n        )\n        self._sequence_start"),
     ("C15", "no-tolerance", "black_it/search_space.py", "parameters_bounds[1][i] + 0.0000001,", "parameters_bounds[1][i],"),
 ]
 
